@@ -348,6 +348,26 @@ Definition responses (t : list event) : list (N * hmap) :=
 Definition connection (cfg : config) (e : env) (qs : list (req * upstream_reply)) : list (list event) :=
   map (fun qu => exchange cfg e (fst qu) (snd qu)) qs.
 
+(* a client connection as handleLoop drives it: handle() is called again and again on the same
+   proxyConn.  After an accepted CONNECT: with MITM the connection has been switched to the TLS
+   session and the FOLLOWING requests are read from inside the intercepted tunnel — by the same
+   handle(), so through the same modifier chain (Tables.mitm_session_reenters_handle); without MITM
+   the rest of the connection is a blind tunnel and the proxy handles no further request on it.
+   Each element: (was the request read from inside a MITM'd tunnel?, events of its exchange). *)
+Fixpoint conn_run (cfg : config) (e : env) (inside : bool) (qs : list (req * upstream_reply))
+  : list (bool * list event) :=
+  match qs with
+  | [] => []
+  | (q, up) :: rest =>
+      (inside, exchange cfg e q up) ::
+      (if is_connect q then
+         match verdict_of cfg e q with
+         | Allow => if c_mitm cfg then conn_run cfg e true rest else []
+         | Deny _ => conn_run cfg e inside rest
+         end
+       else conn_run cfg e inside rest)
+  end.
+
 (* ---------------------------------------------------------------- what the property demands *)
 (* spec-level "this target is the local machine": seed names, hosts-file aliases, loopback
    AND unspecified literals of either family — judged on the name the transport connects
